@@ -97,12 +97,14 @@ theorem C12_no_panic_allocator (s : Store) (proxyNum : Nat) (choice : List (Stri
 slots (this guards the *model's* loop fuel; it follows from `SlotInv c`, see `MigPre_of_SlotInv`);
 `DownPre c k` = `MigPre c` and every master kept by a scale-down to `k` chunks owns at most its
 final share (otherwise `need_num` of `remove_slots_from_src_to_scale_down` underflows). Both are
-required only of the cluster the operation addresses. -/
+required only of the cluster the operation addresses (for `auto_change_node_number`: the cluster left
+after deleting its free chunks, and only when the call scales down). -/
 def PlannerPre (s : Store) : Op → Prop
   | .migrate n => ∀ c, s.findCluster n = some c → MigPre c
   | .scaleOutNum n _ => ∀ c, s.findCluster n = some c → MigPre c
   | .scaleDown n k => ∀ c, s.findCluster n = some c → DownPre c (k / 4)
-  | .changeNum n k _ => ∀ c, (autoDeleteFreeNodes s n).1.findCluster n = some c → DownPre c (k / 4)
+  | .changeNum n k _ => ∀ c, (autoDeleteFreeNodes s n).1.findCluster n = some c → k < c.chunks.length * 4 →
+      DownPre c (k / 4)
   | _ => True
 
 /-- **C12_no_panic, planner part (partial).** Every operation, including `migrate_slots`,
